@@ -16,6 +16,8 @@ Symbols: every S gets a key (table: alias or name; subquery: its key) under whic
 """
 from __future__ import annotations
 
+import json
+
 import datetime as dt
 import decimal
 import uuid
@@ -102,7 +104,7 @@ def source(s, env):
         return t
     if k == "q":
         key, prog, alias = s[1], s[2], s[3] if len(s) > 3 else None
-        q = build(prog, env.child(prog.get("q")))
+        q = _build_sub(prog, env)
         if alias:
             q = q.as_(alias)
         env.sym[key] = q
@@ -116,7 +118,22 @@ def source(s, env):
     raise ValueError(s)
 
 
+_SHARE = None  # dict while a program is built in "shared" mode (see build(share=True))
+
+
 def expr(e, env):
+    """In shared mode every structurally equal sub-expression of one statement level (and every structurally equal subquery
+    program) is built once and the *same object* is handed to every place that uses it - what a user does who keeps a column,
+    a criterion or a subquery in a variable.  The statement must not depend on that."""
+    if _SHARE is None or not isinstance(e, list) or e[0] == "raw":
+        return _expr(e, env)
+    key = (json.dumps(e, sort_keys=True, default=str), id(env))
+    if key not in _SHARE:
+        _SHARE[key] = _expr(e, env)
+    return _SHARE[key]
+
+
+def _expr(e, env):
     X = lambda x: expr(x, env)  # noqa
     O = lambda x: operand(x, env)  # noqa
     k = e[0]
@@ -161,7 +178,7 @@ def expr(e, env):
         return t.notin(items) if len(e) > 3 and e[3] else t.isin(items)
     if k == "insub":
         t = X(e[1])
-        q = build(e[2], env.child(e[2].get("q")))
+        q = _build_sub(e[2], env)
         r = t.isin(q)
         if len(e) > 3 and e[3] == "notin":
             r = t.notin(q)
@@ -169,7 +186,7 @@ def expr(e, env):
             r = ~t.isin(q)
         return r
     if k == "subq":
-        return build(e[1], env.child(e[1].get("q")))
+        return _build_sub(e[1], env)
     if k == "between":
         return X(e[1]).between(O(e[2]), O(e[3]))
     if k == "isnull":
@@ -270,7 +287,23 @@ def seltarget(e, env):
     return expr(e, env)
 
 
-def build(prog, env=None, dialect="generic"):
+def _build_sub(prog, env):
+    if _SHARE is None:
+        return build(prog, env.child(prog.get("q")))
+    key = ("sub", json.dumps(prog, sort_keys=True, default=str), id(env))
+    if key not in _SHARE:
+        _SHARE[key] = build(prog, env.child(prog.get("q")))
+    return _SHARE[key]
+
+
+def build(prog, env=None, dialect="generic", share=False):
+    global _SHARE
+    if share and _SHARE is None:
+        _SHARE = {}
+        try:
+            return build(prog, env, dialect)
+        finally:
+            _SHARE = None
     if env is None:
         env = Env(prog.get("q") or dialect)
     Q = env.Q
@@ -317,7 +350,7 @@ def call(q, c, env):
     if k == "distinct":
         return q.distinct()
     if k == "with":
-        sub = build(c[2], env.child(c[2].get("q")))
+        sub = _build_sub(c[2], env)
         env.sym[c[1]] = AliasedQuery(c[1])
         return q.with_(sub, c[1])
     if k == "into":
@@ -344,7 +377,7 @@ def call(q, c, env):
     if k == "delete":
         return q.delete()
     if k in SETOPS:
-        other = build(c[1], env.child(c[1].get("q")))
+        other = _build_sub(c[1], env)
         return getattr(q, k)(other)
     if k == "for_update":
         return q.for_update(**{kk: (tuple(v) if kk == "of" else v) for kk, v in c[1].items()})
@@ -394,3 +427,33 @@ def render(o, dialect, param=False, **flags):
         return o.get_sql(), None
     except TypeError:
         return o.get_sql(fp.CTX[dialect]), None
+
+
+def shared_objects_diff(p, dialect):
+    """-> None, or a description of how the statement changes when every repeated sub-expression / subquery of the program is one
+    shared object instead of separately built equal objects (inline and parameterised renderings, values included)"""
+    def obs(share):
+        try:
+            o = build(p, dialect=dialect, share=share)
+        except Exception as e:
+            return ("!build:" + type(e).__name__,)
+        out = []
+        for param in (False, True):
+            try:
+                sql, vals = render(o, dialect, param=param)
+                out.append((sql, fp.vrepr(vals) if vals is not None else None))
+            except Exception as e:
+                out.append(("!render:" + type(e).__name__, None))
+        # a second rendering of the same object (anything memoised on shared operands during the first one shows now)
+        try:
+            sql, vals = render(o, dialect, param=True)
+            out.append((sql, fp.vrepr(vals) if vals is not None else None))
+        except Exception as e:
+            out.append(("!render:" + type(e).__name__, None))
+        return tuple(out)
+
+    a, b = obs(False), obs(True)
+    if a != b:
+        i = next(i for i, (x, y) in enumerate(zip(a, b)) if x != y) if len(a) == len(b) else 0
+        return {"separate_objects": a[i] if i < len(a) else a, "shared_objects": b[i] if i < len(b) else b}
+    return None
